@@ -94,11 +94,12 @@ class C05(Property):
         rng = ctx.rng
         n, k = self._plan(ctx)
         lines, metas = [], []
+        tfm_lines, tfm_metas = [], []
         for i in range(n):
             if ctx.out_of_time():
                 ctx.extra["incomplete"] = True
                 break
-            feats = {"exec": 4} if rng.random() < 0.35 else ({"cart": 4, "gather": 6} if rng.random() < 0.25 else None)
+            feats = {"exec": 7, "scatter": 5} if rng.random() < 0.45 else ({"cart": 4, "gather": 6} if rng.random() < 0.25 else None)
             spec = wfgen.gen_spec(rng, size=rng.randint(2, 12), features=feats)
             seeds = [rng.randrange(1 << 30) for _ in range(k)]
             runs = wfcheck.run_schedules(spec, seeds, ctx.scratch, timeout=30.0)
@@ -114,7 +115,27 @@ class C05(Property):
                     ctx.notes.append(f"harness error: {r['outcome']['detail'][:200]}")
             lines.append(f"den {wfcheck.spec_words(spec)}")
             metas.append((spec, runs))
+            # operational model of the grouping loop: real arrival orders in, real emission order out
+            for r in runs:
+                if r["outcome"]["kind"] != "return":
+                    continue
+                for nd in spec["nodes"]:
+                    if nd["kind"] not in ("tf", "cond"):
+                        continue
+                    arrival = [r["order"][str(p)] for p in nd["ins"]]
+                    emitted = r["order"][str(nd["outs"][0])]
+                    tfm_lines.append("tfm " + " ".join(",".join(a) or "-" for a in arrival))
+                    tfm_metas.append((spec, nd, r, arrival, emitted))
+                    if len(arrival) > 1 and any(a != arrival[0] for a in arrival[1:]):
+                        ctx.count("grouping-step-with-differently-ordered-ports")
         got = ctx.lean("Drivers/Net.lean", lines)
+        for g, (spec, nd, r, arrival, emitted) in zip(ctx.lean("Drivers/Net.lean", tfm_lines), tfm_metas):
+            fired = [] if g.split(";")[0] == "out=-" else g.split(";")[0][4:].split(",")
+            keep = set(emitted)
+            if [t for t in fired if t in keep] != emitted or not g.endswith(";left=0"):
+                ctx.disagree("grouping loop (TfMachine) vs real emission order",
+                             f"node {nd['id']} ({nd['kind']}): arrival {arrival}, real emission {emitted}, model {g}",
+                             {"spec": spec, "seeds": [r["seed"]]})
         for g, (spec, runs) in zip(got, metas):
             head, rest = wfcheck.split_den_answer(g)
             if head != "wf=11":
